@@ -1,6 +1,8 @@
 # ruff: noqa: E721
 import builtins
+import keyword
 import math
+import unicodedata
 from enum import Enum
 from typing import Any, Optional
 
@@ -10,6 +12,17 @@ BUILTIN_TO_NAME = {
     if not name.startswith("__") and name != "_"
 }
 NAME_TO_BUILTIN = {name: obj for obj, name in BUILTIN_TO_NAME.items()}
+
+
+def can_be_keyword_arg_name(name: str) -> bool:
+    """Checks that ``name`` written verbatim as ``func(name=value)`` passes exactly this string as the keyword.
+    Keywords can not be written this way at all, and the parser applies NFKC normalization to identifiers.
+    """
+    return (
+        name.isidentifier()
+        and not keyword.iskeyword(name)
+        and unicodedata.normalize("NFKC", name) == name
+    )
 
 
 class _CannotBeRenderedError(Exception):
